@@ -231,6 +231,7 @@ func checkC05(p *ana.Prog, r *ana.Result) {
 	c05Client(p, r, "(*IPClient).measureClockOffsetIP", false)
 	c05Client(p, r, "(*SCIONClient).measureClockOffsetSCION", true)
 	c05Meta(p, r)
+	c05Timestamps(p, r)
 	c05NTS(p, r)
 	n := 0
 	for _, o := range r.Obls {
@@ -754,6 +755,75 @@ func c05NTS(p *ana.Prog, r *ana.Result) {
 
 // lvmFields splits an NTP first byte.
 func lvmFields(b int64) (li, vn, mode int64) { return (b >> 6) & 3, (b >> 3) & 7, b & 7 }
+
+// c05Timestamps: ValidateResponseTimestamps(t0, t1, t2, t3) returns nil only where neither
+// t3 is before t0 nor t2 is before t1 (transmit time not before receive time).
+func c05Timestamps(p *ana.Prog, r *ana.Result) {
+	fn := mustFunc(p, r, "net/ntp", "ValidateResponseTimestamps")
+	if fn == nil {
+		return
+	}
+	fname := ana.FuncName(fn)
+	if len(fn.Params) != 4 {
+		r.Violate("C05.timestamps", fname, "signature", p.Pos(fn.Pos()), "UNDECIDED: expected (t0, t1, t2, t3 time.Time)")
+		return
+	}
+	rets := ana.ClassifyReturns(fn)
+	target := isSuccessTarget(rets)
+	// notBefore(later, earlier): the edges on which "later is before earlier" is known to be false
+	notBefore := func(name string, later, earlier ssa.Value) *ana.Gate {
+		return ana.FindGate(p, fn, name, func(c ana.Cmp, isCmp bool, v ssa.Value) (bool, bool) {
+			if isCmp {
+				k, isK := ana.ConstInt(c.Y)
+				sub, _ := ana.CallOf(c.X)
+				if !isK || k != 0 || sub == nil || ana.CalleeName(sub.Common()) != "(time.Time).Sub" {
+					return false, false
+				}
+				a, b := sub.Common().Args[0], sub.Common().Args[1]
+				switch {
+				case a == later && b == earlier: // later - earlier
+					switch c.Op {
+					case token.LSS:
+						return true, false
+					case token.GEQ:
+						return true, true
+					}
+				case a == earlier && b == later: // earlier - later
+					switch c.Op {
+					case token.GTR:
+						return true, false
+					case token.LEQ:
+						return true, true
+					}
+				}
+				return false, false
+			}
+			if e, l, _, ok := strictOrder(v); ok && e == later && l == earlier {
+				return true, false // "later is before earlier" must not hold
+			}
+			return false, false
+		})
+	}
+	for _, g := range []struct {
+		name           string
+		later, earlier ssa.Value
+		what           string
+	}{
+		{"t3-not-before-t0", fn.Params[3], fn.Params[0], "the response is not received before the request was sent"},
+		{"t2-not-before-t1", fn.Params[2], fn.Params[1], "the server's transmit time is not before its receive time"},
+	} {
+		gate := notBefore(g.name, g.later, g.earlier)
+		if len(gate.Accept) == 0 {
+			r.Violate("C05.timestamps", fname, "gate-missing:"+g.name, p.Pos(fn.Pos()), "ValidateResponseTimestamps does not test that "+g.what)
+			continue
+		}
+		if ok, w := ana.MustPass(fn, nil, gate, target, nil, nil); ok {
+			r.Ok("C05.timestamps", fname, "must-pass:"+g.name, strings.Join(gate.Sites, ","), "nil is returned only where "+g.what)
+		} else {
+			r.Violate("C05.timestamps", fname, "must-pass:"+g.name, strings.Join(gate.Sites, ","), "ValidateResponseTimestamps can return nil although it is not established that "+g.what, w...)
+		}
+	}
+}
 
 func c05Meta(p *ana.Prog, r *ana.Result) {
 	fn := mustFunc(p, r, "net/ntp", "ValidateResponseMetadata")
